@@ -242,7 +242,10 @@ def apply_mutator(obj, s, st_, ctx):
             ctx.check(len(obj.evalpts) == big + 1, "stale-evalpts", "sample_size %d -> %d but evalpts still has %d points" % (big, big + 1, len(obj.evalpts)))
             obj.sample_size = n
             return obj, m
-        obj.sample_size = n
+        if pd > 1 and s["ints"][2] % 2:
+            setattr(obj, "sample_size_" + "uvw"[(s["k"] + s["ints"][5]) % pd], n)          # the per-direction setter
+        else:
+            obj.sample_size = n
         return obj, m
     if m == "insert":
         k = (s["k"] + s["ints"][5]) % pd          # uniform over the directions of the shape
@@ -494,7 +497,7 @@ CVIEWS = ["evalpts", "bbox", "tess", "delta"]
 
 @st.composite
 def _cstep(draw):
-    m = draw(st.sampled_from(["add", "delta", "sample", "edit_element", "translate", "copy_add", "noop", "ops_copy", "delta_dir", "sample_dir"]))
+    m = draw(st.sampled_from(["add", "delta", "sample", "edit_element", "translate", "copy_add", "noop", "ops_copy", "delta_dir", "sample_dir", "tessellator"]))
     return {"m": m, "views": draw(st.lists(st.sampled_from(CVIEWS), min_size=0, max_size=3, unique=True)),
             "n": draw(st.integers(3, 6)), "seed": draw(st.integers(0, 10 ** 6)), "i": draw(st.integers(0, 7)),
             "vec": [draw(st.integers(-16, 16)) / 8.0 for _ in range(3)]}
@@ -590,6 +593,12 @@ def check_container(case, ctx):
             seq.append(m)
             cached.clear()
             dirty.clear()
+        elif m == "tessellator":
+            # the documented way to choose the tessellation algorithm for all members (every member gets its own component)
+            if cont.pdimension == 2:
+                from geomdl import tessellate as _tsl
+                cont.tessellator = _tsl.TriangularTessellate()
+                seq.append(m)          # (no claim that this refreshes anything: cached / dirty bookkeeping stays as it is)
         elif m in ("delta_dir", "sample_dir"):
             # per-direction density setters of surface / volume containers
             if cont.pdimension > 1:
